@@ -59,6 +59,8 @@ def parseOp (w : List String) : Option Op :=
   | ["adPoll", a, call] => some (.adPoll a call)
   | ["adEnd", a, res] => some (.adEnd a res)
   | ["adDrop", a] => some (.adDrop a)
+  | ["closeUnder"] => some .closeUnder
+  | ["collectUnder", x] => some (.collectUnder x)
   | _ => none
 
 /-- canonical id text: `T<k>#<n>` for ids drawn by logical thread k, `0`, else `x<hex>` -/
@@ -104,6 +106,7 @@ structure SeqState where
 def seqStep (st : SeqState) (line : String) : SeqState × String :=
   match words line with
   | ["case", _] => (⟨Sys.init, 0⟩, "case")
+  | [_, "sleep", _] => (st, "ok")      -- the harness lets real time pass; nothing else happens
   | t :: rest =>
     match t.toNat?, parseOp rest with
     | some t, some op =>
@@ -117,6 +120,7 @@ def seqStep (st : SeqState) (line : String) : SeqState × String :=
 def offStep (line : String) : String :=
   match words line with
   | ["case", _] => "case"
+  | [_, "sleep", _] => "ok"
   | _ :: rest =>
     match parseOp rest with
     | some op => showObs 0 (execOff op)
